@@ -111,6 +111,16 @@ static struct reb_treecell *reb_tree_add_particle_to_cell(struct reb_simulation*
                 reb_simulation_error(r, "Cannot add two particles with the same coordinates to the tree.");
                 return node;
             }
+            // Particles which are only a few ulp apart cannot be separated once the cell width drops below the floating point resolution.
+            const double w4 = node->w/4.;
+            int separable = 0;
+            if (particles[pt].x != particles[node->pt].x && (node->x + w4 != node->x || node->x - w4 != node->x)) separable = 1;
+            if (particles[pt].y != particles[node->pt].y && (node->y + w4 != node->y || node->y - w4 != node->y)) separable = 1;
+            if (particles[pt].z != particles[node->pt].z && (node->z + w4 != node->z || node->z - w4 != node->z)) separable = 1;
+            if (!separable){
+                reb_simulation_error(r, "Cannot add two particles with (almost) the same coordinates to the tree.");
+                return node;
+            }
         }
 		node->oct[o1] = reb_tree_add_particle_to_cell(r, node->oct[o1], node->pt, node, o1); 
 		node->oct[o2] = reb_tree_add_particle_to_cell(r, node->oct[o2], pt, node, o2);
